@@ -1,3 +1,31 @@
-(* C15 — the RFC 6298 reference is Monitors.mon_C15; statements are added with the proofs; see DESIGN.md *)
+(* C15 — RTO estimate follows RFC 6298 with Karn's rule and goes stale after 10 minutes. Statements only.
+   The implementation computes in f32 (Duration::mul_f32); the property itself states the tolerance (1e-5 relative + 1 us)
+   within which the monitor Monitors.mon_C15 compares the RTO read from the hook with this reference on every history. *)
 From Coq Require Import List NArith Bool.
-From Rustun Require Import Agent.Rto Agent.Model Agent.Monitors.
+Import ListNotations.
+From Rustun Require Import Agent.Rto Agent.Model Agent.Monitors Proofs.RttProofs.
+Open Scope N_scope.
+
+Theorem C15_first_sample : forall r, rfc6298_update None r = Some (r, r / 2).
+Proof. exact RttProofs.first_sample. Qed.
+Theorem C15_later_sample : forall srtt rttvar r,
+  rfc6298_update (Some (srtt, rttvar)) r = Some ((7 * srtt + r) / 8, (3 * rttvar + absdiff srtt r) / 4).
+Proof. exact RttProofs.later_sample. Qed.
+Theorem C15_rto_formula : forall c srtt rttvar, rfc6298_rto c (Some (srtt, rttvar)) = srtt + N.max (fx (cc_gran c)) (4 * rttvar).
+Proof. exact RttProofs.rto_formula. Qed.
+Theorem C15_rto_initial : forall c, rfc6298_rto c None = fx (cc_rto c).
+Proof. exact RttProofs.rto_initial. Qed.
+Theorem C15_karn_retransmission_clears_instant : forall now t h mk ev id x d m',
+  lookup id t = Some x -> next_rto (tm x) now = (Some d, m') ->
+  tmo_one now (t, h, mk, ev) id = (update_t id {| inst := None; pkt := pkt x; tm := m' |} t, (now, d, id) :: h, mk, ev ++ [Out id false (pkt x)]).
+Proof. exact RttProofs.tmo_one_clears_instant. Qed.
+Print Assumptions C15_first_sample.
+Print Assumptions C15_later_sample.
+Print Assumptions C15_karn_retransmission_clears_instant.
+
+(* RFC 6298 worked example in nanoseconds (fixed point 2^-16 ns): R = 100 ms then R' = 40 ms, G = 1 ms:
+   SRTT = 92.5 ms, RTTVAR = 52.5 ms, RTO = 302.5 ms *)
+Example C15_example :
+  let c := {| cc_mech := 0; cc_fp := false; cc_reliable := false; cc_rto := 500000000; cc_gran := 1000000 |} in
+  rfc6298_rto c (rfc6298_update (rfc6298_update None (fx 100000000)) (fx 40000000)) = fx 302500000.
+Proof. vm_compute. reflexivity. Qed.
